@@ -35,7 +35,7 @@ ANCHORS = [
     "acnportal.acnsim.analysis:_nema_current_unbalance",
     "acnportal.acnsim.analysis:datetimes_array",
 ]
-REQUIRED = ["q:aggregate_current", "q:aggregate_power", "q:constraint_currents", "q:constraint_currents_reordered",
+REQUIRED = ["q:constraint_ids_given_as:set", "q:constraint_ids_given_as:keys", "q:aggregate_current", "q:aggregate_power", "q:constraint_currents", "q:constraint_currents_reordered",
             "q:constraint_currents_duplicates", "q:energy", "q:demands_met", "q:demands_met_threshold_below_full_cut_discriminating", "q:unbalance", "q:unbalance_nan_positions",
             "q:datetimes", "runs_longer_than_8192_periods", "q:datetimes_partial_run", "analysis_called_mid_run_then_run_resumed", "analysis_called_before_the_run", "q:cost_under_an_explicit_tariff_other_than_the_simulations_own", "stochastic_network_runs_judged", "stochastic_runs_with_never_served_sessions", "regime:hetero-voltage", "regime:mixed-sign", "regime:constraint-free"]
 BUDGET_S = {"quick": 240, "thorough": 3000}
@@ -278,7 +278,14 @@ def run_case(case, obs):
             for req in reqs:
                 for rm in (False, True):
                     try:
-                        got = acnsim.constraint_currents(sim, return_magnitudes=rm, constraint_ids=None if req is None else list(req))
+                        # the ids in whatever container the caller holds them: a list, a tuple, a set / frozenset, the keys view of
+                        # a dict of limits (membership is all the function needs of it)
+                        form_ = rng.choice(["list", "list", "tuple", "set", "frozenset", "keys"])
+                        ids_arg = None if req is None else {"list": list, "tuple": tuple, "set": set, "frozenset": frozenset,
+                                                             "keys": lambda r_: {k_: 1.0 for k_ in r_}.keys()}[form_](req)
+                        if req is not None:
+                            obs.ev("q:constraint_ids_given_as:" + form_)
+                        got = acnsim.constraint_currents(sim, return_magnitudes=rm, constraint_ids=ids_arg)
                     except Exception as e:
                         obs.evals += 1
                         obs.violate("analysis:constraint_currents_raises", f"ids={req} return_magnitudes={rm}: {type(e).__name__}: {e}", **wit)
